@@ -62,6 +62,23 @@ def ps_ident (kind, serial):
   return (PS_REASON[kind], port, serial)
 
 
+# ---- the lattice of UNRELATED errors ------------------------------------------------
+# kind "err:<xid choice>:<type>.<code>:<body choice>".  An error is the barrier-unsupported error only when it carries
+# the xid of the handshake's barrier request AND type/code BAD_REQUEST/BAD_TYPE; everything in this lattice differs from
+# that in the xid or in the type/code, whatever its body looks like, and therefore never completes a handshake.
+ERR_XIDS = ("other", "zero", "max", "hello", "features", "desc", "setconfig", "flowmod", "barrier-1", "barrier+1", "barrier")
+ERR_CODES = ((1, 1), (1, 0), (1, 6), (1, 5), (0, 0), (0, 1), (2, 0), (3, 0), (4, 0), (5, 0), (0xffff, 0xffff))
+ERR_BODIES = ("empty", "1byte", "4bytes", "barrier", "barrier-hdr-xid0", "hello", "features-req", "desc-req", "setconfig", "flowmod64")
+
+def err_kinds (xids=ERR_XIDS, codes=ERR_CODES, bodies=ERR_BODIES):
+  out = []
+  for x in xids:
+    for t, c in codes:
+      if x == "barrier" and (t, c) == (1, 1): continue      # that IS the barrier-unsupported error
+      for b in bodies: out.append("err:%s:%d.%d:%s" % (x, t, c, b))
+  return out
+
+
 class Peer (object):
   """Scripted switch on one connection."""
   def __init__ (self, dpid):
@@ -75,6 +92,9 @@ class Peer (object):
     self.hello_seen = False
     self.ports = (1, 2)         # port numbers listed in the features reply (48 bytes each)
     self.xid_mode = "default"   # xid of the messages the switch ORIGINATES (hello, port status, echo request, packet in)
+    self.first = {}             # type name -> (xid, raw bytes) of the first controller message of that type
+    self.freq_xids = []         # xid of every features request received
+    self.freq_answered = 1      # how many of them were answered (the first one by the handshake's features reply)
 
   def own_xid (self, default):
     """The switch chooses the xids of its own messages freely: the script's default, 0, 0xffffffff, or the
@@ -95,6 +115,8 @@ class Peer (object):
     for m in msgs:
       d = W.decode(m)
       names.append(d["t"])
+      self.first.setdefault(d["t"], (d["xid"], m))
+      if d["type"] == W.FEATURES_REQUEST: self.freq_xids.append(d["xid"])
       if d["type"] == W.HELLO: self.hello_seen = True
       elif d["type"] == W.FEATURES_REQUEST and self.features_xid is None: self.features_xid = d["xid"]
       elif d["type"] == W.STATS_REQUEST and len(m) >= 12:
@@ -108,7 +130,32 @@ class Peer (object):
     if kind == "features": return self.features_xid is not None
     if kind == "desc": return self.desc_xid is not None
     if kind in ("barrier", "barrier-unsup"): return self.barrier_xid is not None
+    if kind == "features-again": return len(self.freq_xids) > self.freq_answered
     return True
+
+  def err_xid (self, choice):
+    """The xid of an unrelated error: never the handshake barrier's unless that is what was asked for."""
+    names = {"hello": "HELLO", "features": "FEATURES_REQUEST", "desc": "STATS_REQUEST", "setconfig": "SET_CONFIG", "flowmod": "FLOW_MOD"}
+    if choice == "barrier": return self.barrier_xid if self.barrier_xid is not None else self.other_xid()
+    if choice == "zero": x = 0
+    elif choice == "max": x = 0xffffffff
+    elif choice in names: x = self.first[names[choice]][0] if names[choice] in self.first else None
+    elif choice == "barrier-1": x = None if self.barrier_xid is None else (self.barrier_xid - 1) & 0xffffffff
+    elif choice == "barrier+1": x = None if self.barrier_xid is None else (self.barrier_xid + 1) & 0xffffffff
+    else: x = None
+    if x is None or x == self.barrier_xid: x = self.other_xid()
+    return x
+
+  def err_body (self, choice):
+    """Error data: what (part of) the offending request the switch copies into the error."""
+    names = {"hello": "HELLO", "features-req": "FEATURES_REQUEST", "desc-req": "STATS_REQUEST", "setconfig": "SET_CONFIG", "flowmod64": "FLOW_MOD"}
+    if choice == "empty": return b""
+    if choice == "1byte": return b"\x01"
+    if choice == "4bytes": return b"\x01\x12\x00\x08"
+    if choice == "barrier": return self.barrier_raw or W.barrier_request(self.other_xid())
+    if choice == "barrier-hdr-xid0": return b"\x01\x12\x00\x08\x00\x00\x00\x00"
+    raw = self.first[names[choice]][1] if names[choice] in self.first else W.msg({"hello": W.HELLO, "features-req": W.FEATURES_REQUEST}.get(choice, W.FEATURES_REQUEST), self.other_xid())
+    return raw[:64]
 
   def other_xid (self):
     """An xid that is not the one of the handshake barrier."""
@@ -130,6 +177,14 @@ class Peer (object):
     if kind == "echo": return W.echo_request(self.own_xid(0x0c09e000 + serial), b"ping%d" % serial)
     if kind == "echo-pad": return W.echo_request(self.own_xid(0x0c09f000 + serial), b"\0" * serial)    # serial = body length
     if kind == "pktin": return packet_in(serial, xid=self.own_xid(0))
+    if kind == "features-again":
+      # the answer to a features request the controller sent AFTER the handshake's (second hello, application request)
+      x = self.freq_xids[self.freq_answered]; self.freq_answered += 1
+      return features_reply(x, self.dpid, self.ports)
+    if kind.startswith("err:"):
+      _, xc, tc, bc = kind.split(":")
+      t, c = tc.split(".")
+      return error_msg(self.err_xid(xc), int(t), int(c), self.err_body(bc))
     if kind == "err-xid":
       # right type/code, but about some other request
       return error_msg(self.other_xid(), W.OFPET_BAD_REQUEST, W.OFPBRC_BAD_TYPE, b"\x01\x12\x00\x08\x00\x00\x00\x00")
